@@ -31,3 +31,39 @@ Theorem C20_transparent :
                             (exec D host (fun _ => false) maxdepth fuel depth ii s2 f is).
 Proof. exact listeners_transparent. Qed.
 Print Assumptions C20_transparent.
+
+(* "carrying the actual parameters and results": an invocation of a listened function with arguments [args] — at any
+   call depth, from any caller (direct, indirect, host re-entry), whatever happens inside — appends
+   EBefore fa args :: mid ++ [EAfter fa vs] where [vs] are exactly the values handed back to its caller, or
+   ... ++ [EAbort fa] when it ends in a trap (any kind: guest trap, host panic, exit, exhaustion), with [mid] well
+   bracketed; an invocation of a function that is not listened appends a well-bracketed list and no event of its own *)
+From Verif Require Import Proofs.ListenerValuesP.
+Theorem C20_events_carry_actual_values :
+  forall D host listened maxdepth fu depth s fa args,
+  match invoke_with D host listened maxdepth (exec D host listened maxdepth fu) depth s fa args with
+  | IOk s' vs =>
+      if listened fa
+      then exists mid, s_log s' = s_log s ++ EBefore fa args :: mid ++ [EAfter fa vs] /\ balanced D mid
+      else exists l, s_log s' = s_log s ++ l /\ balanced D l
+  | ITrap t s' =>
+      if listened fa
+      then exists mid, s_log s' = s_log s ++ EBefore fa args :: mid ++ [EAbort fa] /\ balanced D mid
+      else exists l, s_log s' = s_log s ++ l /\ balanced D l
+  | IFuel => True
+  end.
+Proof. exact invoke_events. Qed.
+Print Assumptions C20_events_carry_actual_values.
+
+(* the same seen from the embedder: the values an exported call returns are the ones its After event carries (completed
+   by the untouched rest of the argument list when the caller passed more than the function takes) *)
+Theorem C20_export_call_events :
+  forall D host listened maxdepth fuel s fa args tp tr ci nl body,
+  nth_error (s_funcs s) fa = Some (FWasm ci tp tr nl body) -> listened fa = true ->
+  match call_export D host listened maxdepth fuel s fa args with
+  | (s', RVals vs) => exists mid ws, s_log s' = s_log s ++ EBefore fa (rev (firstn (length tp) (rev args))) :: mid ++ [EAfter fa ws] /\ balanced D mid /\
+                                     vs = rev (firstn (length tr) (rev ws ++ skipn (length tp) (rev args)))
+  | (s', RTrap t) => t = TStuck \/ exists mid, s_log s' = s_log s ++ EBefore fa (rev (firstn (length tp) (rev args))) :: mid ++ [EAbort fa] /\ balanced D mid
+  | (_, RFuel) => True
+  end.
+Proof. exact call_export_events. Qed.
+Print Assumptions C20_export_call_events.
